@@ -30,10 +30,10 @@ pub struct Case {
 
 pub fn strategy() -> impl Strategy<Value = Case> {
     let repo = prop_oneof![
-        2 => Just(Op::CommitAll),
-        2 => any::<u16>().prop_map(Op::Edit),
-        1 => (any::<u16>(), any::<u16>()).prop_map(|(a, b)| Op::Create(a, b)),
-        1 => any::<u16>().prop_map(Op::Delete),
+        6 => Just(Op::CommitAll),
+        6 => any::<u16>().prop_map(Op::Edit),
+        3 => (any::<u16>(), any::<u16>()).prop_map(|(a, b)| Op::Create(a, b)),
+        3 => any::<u16>().prop_map(Op::Delete),
         1 => any::<u16>().prop_map(Op::BulkCreate),
     ];
     let step = prop_oneof![
